@@ -235,6 +235,7 @@ func (e *Explorer) Branch(c Bool) bool {
 	if c.IsC() {
 		return c.C
 	}
+	e.oblOnPath++
 	idx := len(e.taken)
 	if idx < len(e.prefix) {
 		d := e.prefix[idx] != 0
